@@ -119,6 +119,33 @@ func (b Bits) Known() (constant.Value, bool) {
 	return v, true
 }
 
+// WordBits is the width of int, uint and uintptr on the analysed target (set by the loader from the type-checker's
+// sizes: 32 under GOARCH=386).
+var WordBits = 64
+
+// wrapConst reduces an integer constant to the value range of integer type t (two's complement wrap-around of
+// arithmetic, shifts and conversions).
+func wrapConst(v Val, t types.Type) Val {
+	c, ok := v.(Const)
+	if !ok || c.V == nil || c.V.Kind() != constant.Int {
+		return v
+	}
+	w, signed, ok := intInfo(t)
+	if !ok {
+		return v
+	}
+	n, ok := new(big.Int).SetString(c.V.ExactString(), 10)
+	if !ok {
+		return v
+	}
+	mod := new(big.Int).Lsh(big.NewInt(1), uint(w))
+	n.Mod(n, mod) // Go's Mod is Euclidean: 0 <= n < mod
+	if signed && n.Bit(w-1) == 1 {
+		n.Sub(n, mod)
+	}
+	return Const{constant.Make(n)}
+}
+
 func intInfo(t types.Type) (w int, signed bool, ok bool) {
 	b, isB := t.Underlying().(*types.Basic)
 	if !isB || b.Info()&types.IsInteger == 0 {
@@ -131,7 +158,9 @@ func intInfo(t types.Type) (w int, signed bool, ok bool) {
 		return 16, true, true
 	case types.Int32:
 		return 32, true, true
-	case types.Int64, types.Int:
+	case types.Int:
+		return WordBits, true, true
+	case types.Int64:
 		return 64, true, true
 	case types.Uint8:
 		return 8, false, true
@@ -139,7 +168,9 @@ func intInfo(t types.Type) (w int, signed bool, ok bool) {
 		return 16, false, true
 	case types.Uint32:
 		return 32, false, true
-	case types.Uint64, types.Uint, types.Uintptr:
+	case types.Uint, types.Uintptr:
+		return WordBits, false, true
+	case types.Uint64:
 		return 64, false, true
 	}
 	return 0, false, false
@@ -343,7 +374,7 @@ func convertInt(v Val, from, to types.Type) (Val, bool) {
 		return nil, false
 	}
 	if c, ok := v.(Const); ok {
-		return c, true
+		return wrapConst(c, to), true
 	}
 	if wf == wt {
 		if b, ok := v.(Bits); ok {
